@@ -339,7 +339,21 @@ func runC11(c *Ctx, w *World, r *Report) {
 				continue
 			}
 			bd := fa.BoundsAt(ret.Block(), fa.Lin(ret.Results[0]))
-			if !(bd.HasLo && bd.Lo >= 0) && badC == "" {
+			if bd.HasLo && bd.Lo >= 0 {
+				continue
+			}
+			// or established for each alternative on its own edge (guard clauses before the minimum is taken)
+			okAll, nl := true, 0
+			for _, leaf := range fa.leavesOf(ret.Results[0], ret.Block(), 0) {
+				nl++
+				if k, ok := constInt64(stripConv(leaf.V)); ok && k >= 0 {
+					continue
+				}
+				if b := fa.boundsFrom(leaf.Conds, fa.Lin(leaf.V)); !(b.HasLo && b.Lo >= 0) {
+					okAll = false
+				}
+			}
+			if !(okAll && nl > 0) && badC == "" {
 				badC = "the returned bit count is not established to be >= 0 (known: " + bd.String() + "): a start bit past the end of the string would yield a negative length"
 			}
 		}
@@ -422,7 +436,23 @@ func runC11(c *Ctx, w *World, r *Report) {
 			for _, ret := range returnsOf(fn) {
 				call, ok := ret.Results[0].(*ssa.Call)
 				if !ok || call.Common().StaticCallee() != fns["bmtree.NewPath"] {
-					bad = "result is not NewPath(...)"
+					// or the layout NewPath builds, written out on the two results of FromStr32
+					isBits := func(x ssa.Value) bool {
+						e, ok := x.(*ssa.Extract)
+						return ok && e.Tuple == ssa.Value(fs) && e.Index == 1
+					}
+					var lenL Lin
+					haveLen := false
+					eachInstr(fn, func(ins ssa.Instruction) {
+						if e, ok := ins.(*ssa.Extract); ok && e.Tuple == ssa.Value(fs) && e.Index == 0 {
+							lenL, haveLen = fa.Lin(e), true
+						}
+					})
+					if !haveLen {
+						bad = "result is not NewPath(...)"
+					} else if why := pathLayoutProblem(fa, ret.Results[0], isBits, lenL, fa.Lin(fn.Params[2])); why != "" {
+						bad = "result is neither NewPath(bits, length, height) nor its layout: " + why
+					}
 					continue
 				}
 				na := call.Common().Args
